@@ -29,6 +29,9 @@ static zckCtx *mk_reader3(IN_rd *in) {
     V_ASSUME(in->err0 >= 0 && in->err0 <= 2 && SPEC_HASH_VALID(in->ctype) && SPEC_HASH_VALID(in->htype));
     V_ASSUME(in->hu_final0 >= 0 && in->hu_final0 < 1000 && in->hu_inits0 >= 0 && in->hu_inits0 < 1000 && in->hu_seen0 >= 0 && in->hu_seen0 < 1000);
     V_ASSUME(in->n_nodes >= 1 && in->n_nodes <= 3 && in->cur >= -1 && in->cur < in->n_nodes);
+#ifdef VERIF_RD_NODES
+    V_ASSUME(in->n_nodes <= VERIF_RD_NODES);
+#endif
     V_ASSUME(in->comp_type == ZCK_COMP_NONE || in->comp_type == ZCK_COMP_ZSTD);
     zckCtx *zck = calloc(1, sizeof(*zck));
     V_ASSUME(zck != NULL);
@@ -99,6 +102,111 @@ void h_comp_read(void) {
     V_COVER(r > 0 && in.cur == 0 && zck->comp.data_idx == g_nodes[1] && in.comp_type == ZCK_COMP_ZSTD);   /* crossed a chunk boundary (zstd) */
     V_COVER(r > 0 && in.cur == 1 && zck->comp.data_idx == g_nodes[2] && in.comp_type == ZCK_COMP_NONE);   /* crossed a chunk boundary (nocomp) */
     V_COVER(r > 0 && in.watch_full && g_rd_bytes[G_IX(in.fd)] > in.rd0[G_IX(in.fd)]);
+}
+
+
+/* ---- leaf helpers of the reader: decoded-side and stored-side buffers ------------------------------ */
+typedef struct { zckCtx any; size_t dc_size0, dc_loc0, data_size0, n; int src_null, dst_null; unsigned char fill[32]; } IN_leaf;
+V_INPUT(IN_leaf)
+static zckCtx *mk_leaf(IN_leaf *in) {
+    zckCtx *zck = malloc(sizeof(*zck));
+    V_ASSUME(zck != NULL);
+    *zck = in->any;
+    V_ASSUME(zck->error_state >= 0 && zck->error_state <= 2);
+    V_ASSUME(in->dc_loc0 <= in->dc_size0 && in->dc_size0 <= 32 && in->data_size0 <= 32 && in->n <= 32);
+    zck->comp.dc_data = NULL; zck->comp.data = NULL;
+    if(in->dc_size0) { zck->comp.dc_data = malloc(in->dc_size0); V_ASSUME(zck->comp.dc_data != NULL); }
+    zck->comp.dc_data_size = in->dc_size0; zck->comp.dc_data_loc = in->dc_loc0;
+    if(in->data_size0) { zck->comp.data = malloc(in->data_size0); V_ASSUME(zck->comp.data != NULL); }
+    zck->comp.data_size = in->data_size0;
+    return zck;
+}
+
+void h_comp_add_to_dc(void) {
+    IN_leaf in = nondet_IN_leaf();
+    zckCtx *zck = mk_leaf(&in);
+    char *src = in.src_null ? NULL : malloc(in.n);
+    V_ASSUME(in.src_null || src != NULL);
+    /* ghost indices: one unread decoded byte and one appended byte must be found again */
+    size_t unread = in.dc_size0 - in.dc_loc0;
+    char old_unread = (g_k1 < unread) ? zck->comp.dc_data[in.dc_loc0 + g_k1] : 0;
+    char new_byte = (!in.src_null && g_k2 < in.n) ? src[g_k2] : 0;
+    bool r = comp_add_to_dc(zck, &zck->comp, src, in.n);
+    V_ASSERT(!r || !(g_k1 < unread) || zck->comp.dc_data[g_k1] == old_unread, "C02,C01.comp_add_to_dc.keeps_every_unread_byte_in_order");
+    V_ASSERT(!r || !(g_k2 < in.n) || zck->comp.dc_data[unread + g_k2] == new_byte, "C02,C01.comp_add_to_dc.appends_every_new_byte_in_order");
+    V_COVER(r && unread > 0 && in.n > 0); V_COVER(!r && zck->error_state > 0); V_COVER(r && in.n == 0);
+}
+
+void h_comp_read_from_dc(void) {
+    IN_leaf in = nondet_IN_leaf();
+    zckCtx *zck = mk_leaf(&in);
+    char *dst = in.dst_null ? NULL : malloc(in.n);
+    V_ASSUME(in.dst_null || dst != NULL);
+    size_t unread = in.dc_size0 - in.dc_loc0;
+    char expect = (g_k1 < unread) ? zck->comp.dc_data[in.dc_loc0 + g_k1] : 0;
+    size_t r = comp_read_from_dc(zck, &zck->comp, dst, in.n);
+    V_ASSERT(r == (size_t)-1 || !(g_k1 < r) || dst[g_k1] == expect, "C02,C14.comp_read_from_dc.hands_out_the_buffered_bytes_in_order");
+    V_COVER(r != (size_t)-1 && r > 0 && r < in.n); V_COVER(r == in.n && in.n > 0); V_COVER(r == (size_t)-1); V_COVER(r == 0 && in.n > 0);
+}
+
+void h_comp_add_to_data(void) {
+    IN_leaf in = nondet_IN_leaf();
+    zckCtx *zck = mk_leaf(&in);
+    char *src = in.src_null ? NULL : malloc(in.n);
+    V_ASSUME(in.src_null || src != NULL);
+    char old_b = (g_k1 < in.data_size0) ? zck->comp.data[g_k1] : 0;
+    char new_b = (!in.src_null && g_k2 < in.n) ? src[g_k2] : 0;
+    bool r = comp_add_to_data(zck, &zck->comp, src, in.n);
+    V_ASSERT(!r || !(g_k1 < in.data_size0) || zck->comp.data[g_k1] == old_b, "C02.comp_add_to_data.keeps_every_buffered_byte");
+    V_ASSERT(!r || !(g_k2 < in.n) || zck->comp.data[in.data_size0 + g_k2] == new_b, "C02.comp_add_to_data.appends_every_new_byte_in_order");
+    V_COVER(r && in.data_size0 > 0 && in.n > 0); V_COVER(!r);
+}
+
+/* ---- control-only unit of comp_read (-DVERIF_CTL): arbitrary context, arbitrary index list ------------
+ * No list shape, no buffer well-formedness: the context and the (up to two distinct) chunk records the
+ * function can reach before a callee moves the cursor are fully nondeterministic.  Proves the control and
+ * ghost-accounting clauses for every list length; memory safety is the companion unit comp_read. */
+typedef struct { zckCtx any; zckChunk c1, c2; int first_null, has2, cur, use_dict, watch_full, dst_null, cfull_typed, cchunk_typed;
+                 size_t dst_size; size_t hu_total0, hu_k, k1; unsigned hu_seen0, hu_final0, hu_inits0;
+                 g_off_t pos0[G_NFD]; size_t rd0[G_NFD]; int failed0; } IN_rdc;
+V_INPUT(IN_rdc)
+
+void h_comp_read_ctl(void) {
+    IN_rdc in = nondet_IN_rdc();
+    zckCtx *zck = malloc(sizeof(*zck));
+    V_ASSUME(zck != NULL);
+    *zck = in.any;
+    zckChunk *n1 = malloc(sizeof(*n1)), *n2 = malloc(sizeof(*n2));
+    V_ASSUME(n1 != NULL && n2 != NULL);
+    *n1 = in.c1; *n2 = in.c2;
+    n1->next = in.has2 ? n2 : NULL;
+    if(in.has2 > 1) n2->next = n1;        /* not even acyclicity is assumed */
+    zck->index.first = n1;
+    zck->comp.data_idx = in.cur == 0 ? NULL : in.cur == 1 ? n1 : n2;
+    g_n1 = g_n2 = g_n3 = NULL;            /* control-only: no named list */
+    zck->comp.end_dchunk = verif_end_dchunk; zck->comp.decompress = verif_decompress; zck->comp.init = verif_cinit; zck->comp.close = verif_cclose;
+    V_ASSUME(zck->error_state >= 0 && zck->error_state <= 2);   /* the only values the library ever stores */
+    V_ASSUME(zck->comp.type == ZCK_COMP_NONE || zck->comp.type == ZCK_COMP_ZSTD);
+    zck->check_chunk_hash.type = in.cchunk_typed ? &zck->chunk_hash_type : NULL;
+    zck->check_full_hash.type = in.cfull_typed ? &zck->hash_type : NULL;
+    g_hu_hash = in.watch_full ? &zck->check_full_hash : &zck->check_chunk_hash;
+    g_hu_total = in.hu_total0; g_hu_k = in.hu_k; g_hu_seen = in.hu_seen0;
+    g_hu_final = in.hu_final0; g_hu_inits = in.hu_inits0; g_k1 = in.k1;
+    V_ASSUME(in.hu_final0 < 1000 && in.hu_inits0 < 1000 && in.hu_seen0 < 1000);
+    for(int i = 0; i < G_NFD; i++) { g_fpos[i] = in.pos0[i]; g_rd_bytes[i] = in.rd0[i]; }
+    V_ASSUME(in.failed0 == 0 || in.failed0 == 1);
+    g_io_failed = in.failed0;
+    V_ASSUME(in.dst_size <= 64);
+    char *dst = malloc(in.dst_size);
+    V_ASSUME(dst != NULL);
+    V_ASSUME(in.cur != 0 || zck->comp.data_loc == 0);
+    int err0 = zck->error_state;
+    ssize_t r = comp_read(zck, dst, in.dst_size, in.use_dict != 0);
+    V_ASSERT(r < 0 || (err0 == 0 && zck->error_state == 0), "C15,C02,C12.comp_read.no_success_once_an_error_arose");
+    V_COVER(r > 0 && (size_t)r == in.dst_size); V_COVER(r > 0 && (size_t)r < in.dst_size); V_COVER(r == 0 && in.dst_size > 0);
+    V_COVER(r == -1 && err0 == 0 && zck->mode == ZCK_MODE_READ && zck->comp.started);
+    V_COVER(r > 0 && in.watch_full && g_rd_bytes[G_IX(zck->fd)] > in.rd0[G_IX(zck->fd)]);
+    V_COVER(r > 0 && in.cur == 1 && zck->comp.data_idx != n1);     /* crossed a chunk boundary */
 }
 
 void h_zck_get_chunk_data(void) {
